@@ -441,6 +441,52 @@ var scenarios = []scenario{
 		}
 		return expect(r2, key(1), val('N', 10), true)
 	}},
+	{"F20-torn-primary-record", "C03", "a crash tore the last primary record; records written after the restart must survive garbage collection of that file", func() (bool, string) {
+		for _, stray := range [][]byte{{0x0c, 0, 0, 0, 0x12, 6}, {0x10, 0, 0, 0x80, 1, 2, 3}, {0x0c}} {
+			dir := tmp("f20")
+			s := openAt(dir, 100)
+			want := map[byte][]byte{}
+			for b := byte(1); b <= 2; b++ {
+				want[b] = val(0x90+b, 14)
+				must(s.Put(key(b), want[b]))
+			}
+			must(s.Flush())
+			s.Close()
+			// the crash: the write of the next record stopped after len(stray) bytes
+			f, err := os.OpenFile(filepath.Join(dir, "d.0"), os.O_WRONLY|os.O_APPEND, 0)
+			must(err)
+			f.Write(stray)
+			f.Close()
+			os.Remove(filepath.Join(dir, "i.buckets"))
+			r := openAt(dir, 100)
+			for b := byte(3); b <= 9; b++ {
+				want[b] = val(0x90+b, 14)
+				must(r.Put(key(b), want[b]))
+			}
+			must(r.Flush())
+			want[1] = val(0x55, 14)
+			must(r.Put(key(1), want[1])) // garbage in the file the crash interrupted
+			must(r.Flush())
+			for i := 0; i < 3; i++ {
+				if _, err := gc(r, 90); err != nil {
+					r.Close()
+					os.RemoveAll(dir)
+					return false, fmt.Sprintf("torn tail %x: gc cycle %d: %v", stray, i, err)
+				}
+			}
+			must(r.Flush())
+			for b := byte(1); b <= 9; b++ {
+				if ok, d := expect(r, key(b), want[b], true); !ok {
+					r.Close()
+					os.RemoveAll(dir)
+					return false, fmt.Sprintf("torn tail %x, then 7 more records, an overwrite, flushes and 3 GC cycles: %s", stray, d)
+				}
+			}
+			r.Close()
+			os.RemoveAll(dir)
+		}
+		return true, ""
+	}},
 	{"F19-torn-freelist-entry", "C03", "crash tore a freelist entry; GC must keep working and later entries must stay aligned", func() (bool, string) {
 		dir := tmp("f19")
 		defer os.RemoveAll(dir)
